@@ -350,32 +350,46 @@ pub fn c15(seed: u64, n: usize) {
                 if quat(q[j], &q).dot(&quat(q[j] + eps, &q)) < 0.0 { fam.push_str("/quat-sign-switch"); }
             }
         }
-        let jac = Jacobian::new(&robot, &q, eps);
-        // read the matrix through torques_from_vector(e_i): row i
-        let mut m = Matrix6::<f64>::zeros();
-        for row in 0..6 {
-            let mut e = Vector6::zeros(); e[row] = 1.0;
-            let t = jac.torques_from_vector(&e);
-            for col in 0..6 { m[(row, col)] = t[col]; }
-        }
+        // a twist / wrench: general, pure force / translation (exactly no rotation part), pure torque / rotation
+        let mut x: [f64; 6] = [r.range(-1.0, 1.0), r.range(-1.0, 1.0), r.range(-1.0, 1.0), r.range(-1.0, 1.0), r.range(-1.0, 1.0), r.range(-1.0, 1.0)];
+        if i % 8 == 6 { x[3] = 0.0; x[4] = 0.0; x[5] = 0.0; fam.push_str("/pure-force"); }
+        if i % 8 == 2 { x[0] = 0.0; x[1] = 0.0; x[2] = 0.0; fam.push_str("/pure-torque"); }
+        if i % 16 == 9 { let keep = r.below(6); for k in 0..6 { if k != keep { x[k] = 0.0; } } fam.push_str("/one-component"); }
+        let built = catch(std::panic::AssertUnwindSafe(|| {
+            let jac = Jacobian::new(&robot, &q, eps);
+            // read the matrix through torques_from_vector(e_i): row i
+            let mut m = Matrix6::<f64>::zeros();
+            for row in 0..6 {
+                let mut e = Vector6::zeros(); e[row] = 1.0;
+                let t = jac.torques_from_vector(&e);
+                for col in 0..6 { m[(row, col)] = t[col]; }
+            }
+            (jac, m)
+        }));
+        let (jac, m) = match built {
+            Some(v) => v,
+            None => { let mut l = Line::new("C15", &format!("{}/eps{:.0e}", fam, eps), "jac"); ks.encode(&mut l); l.j6(&q).f(eps).f(0.0).arrow(); l.s("panic"); l.emit(); continue; }
+        };
         let sv = m.svd(false, false).singular_values;
         let cond = if sv.min() > 0.0 { sv.max() / sv.min() } else { f64::INFINITY };
         let mut l = Line::new("C15", &format!("{}/eps{:.0e}", fam, eps), "jac");
         ks.encode(&mut l);
         l.j6(&q).f(eps).f(cond).arrow();
         for row in 0..6 { for col in 0..6 { l.f(m[(row, col)]); } }
-        // a twist / wrench and the entry points
-        let x: [f64; 6] = [r.range(-1.0, 1.0), r.range(-1.0, 1.0), r.range(-1.0, 1.0), r.range(-1.0, 1.0), r.range(-1.0, 1.0), r.range(-1.0, 1.0)];
         let xv = Vector6::from_column_slice(&x);
         let mut iso = Isometry3::new(Vector3::new(x[0], x[1], x[2]), Vector3::new(x[3], x[4], x[5]));
         // the same rotation written with the other quaternion (negative scalar part), as a product of poses may give it
         if i % 4 == 3 { let qn = iso.rotation.into_inner(); iso.rotation = nalgebra::UnitQuaternion::new_unchecked(-qn); }
         v6(&mut l, &x); l.iso(&iso);
-        match jac.velocities_from_vector(&xv) { Ok(v) => { l.n(1); v6(&mut l, &v); } Err(_) => { l.n(0); } }
-        match jac.velocities(&iso) { Ok(v) => { l.n(1); v6(&mut l, &v); } Err(_) => { l.n(0); } }
-        match jac.velocities_fixed(x[0], x[1], x[2]) { Ok(v) => { l.n(1); v6(&mut l, &v); } Err(_) => { l.n(0); } }
-        v6(&mut l, &jac.torques_from_vector(&xv));
-        v6(&mut l, &jac.torques(&iso));
+        let entry = catch(std::panic::AssertUnwindSafe(|| (jac.velocities_from_vector(&xv).ok(), jac.velocities(&iso).ok(),
+            jac.velocities_fixed(x[0], x[1], x[2]).ok(), jac.torques_from_vector(&xv), jac.torques(&iso))));
+        match entry {
+            Some((a, b, c, t1, t2)) => {
+                for o in [a, b, c] { match o { Some(v) => { l.n(1); v6(&mut l, &v); } None => { l.n(0); } } }
+                v6(&mut l, &t1); v6(&mut l, &t2);
+            }
+            None => { l.s("panic"); }
+        }
         l.emit();
     }
 }
